@@ -36,6 +36,23 @@ CLAIMS = {
         text='Bounded symbolic model checking of swap of adjacent levels from an arbitrary valid state with ledger: held nodes keep number, by-name function and count; manager stays canonical; order maps exchanged.',
         note='One inductive step; schedulers are compositions of swap; bounds in evidence.',
         ref='DESIGN.md section 8 C07'),
+    'C02': dict(
+        text='Canonicity lemma (pure SMT on the invariant: equal denotation implies equal reference, N<=5..6, L=3) plus bounded symbolic proof that every mutator '
+             '(find_or_add, swap, collect_garbage, undeclare_vars, add_var; ite in C01) preserves the reduced-ordered-unique invariant from an arbitrary valid state.',
+        note='Inductive step per mutator within bounds; the lemma links denotation equality (all other checks) to reference equality.',
+        ref='DESIGN.md sections 4.4 and 8 C02'),
+    'C11': dict(
+        text='Bounded symbolic model checking of copy_bdd / BDD.copy / dd._copy.copy_bdd / copy_bdds_from / autoref copy: symbolic source manager and operand, symbolic target manager behind ite/find_or_add contracts, every pair of orders; result denotes the same function by name.',
+        note='Target-side ite/find_or_add are contract stubs (C01 kernels); bounds in evidence.',
+        ref='DESIGN.md section 8 C11'),
+    'C13': dict(
+        text='Bounded symbolic model checking of image/preimage/_image against the bit-vector relational product (rename, conjoin, quantify) for symbolic transition relation and set, all rename pairings, quantified subsets, both quantifiers, names and levels.',
+        note='Documented preconditions assumed: adjacent pairs (preimage), keys disjoint from values, image targets quantified or absent, preimage target does not mention primed variables; ite/find_or_add contract stubs.',
+        ref='DESIGN.md section 8 C13'),
+    'C14': dict(
+        text='Bounded symbolic model checking of add_var/declare (symbolic level) and undeclare_vars (every subset) from an arbitrary valid state: order views stay one bijection, refusals leave everything intact, all functions unchanged by name, manager canonical.',
+        note='undeclare_vars runs through the literal-lifting loader (dict comprehensions -> symbolic-key dicts), validated by concrete replay on the unlifted module. One known finding (add_var with a gap level).',
+        ref='DESIGN.md section 8 C14'),
     'C10': dict(
         text='Bounded symbolic model checking of support/is_essential/count/pick_iter/pick (no stubs, read-only) against bit-vector dependence, popcount and cube-cover oracles for every valid manager and operand within the bounds.',
         note='_assert_int (a Python-type assertion) replaced by identity; levels are concretised by the set/dict lookups of the real code, children and signs stay symbolic.',
